@@ -11,6 +11,7 @@ mod iosim;
 mod net;
 mod tlsfix;
 mod poolsim;
+mod realconnect;
 mod rng;
 mod simrt;
 mod timersim;
@@ -121,6 +122,9 @@ fn check(args: &Args) -> i32 {
         "C10" | "C11" => {
             let sc = eyesim::EyeSim { property: if property == "C10" { "C10" } else { "C11" } };
             parts.push(run_part(&sc, &cfg("eyesim"), &known, &mut verdict));
+            // the wiring of TcpTransport to the eyeballs core, over real loopback sockets
+            let rc = realconnect::RealConnectSim { property: if property == "C10" { "C10" } else { "C11" } };
+            parts.push(run_part(&rc, &cfg("realconnect"), &known, &mut verdict));
         }
         "C01" => {
             parts.push(run_part(&e2e::E2eSim, &cfg("e2esim"), &known, &mut verdict));
@@ -249,6 +253,7 @@ fn replay(args: &Args) -> i32 {
         "srvfault" => replay_with(&e2e::srvfault::SrvFaultSim, &rf, args.machine),
         "realsock" => replay_with(&e2e::realsock::RealSockSim, &rf, args.machine),
         "realio" => replay_with(&iosim::RealIoSim, &rf, args.machine),
+        "realconnect" => replay_with(&realconnect::RealConnectSim { property: "C10" }, &rf, args.machine),
         "timersim" => replay_with(&timersim::TimerSim, &rf, args.machine),
         "poolsim" => replay_with(&poolsim::PoolSim { property: leak(&rf.property) }, &rf, args.machine),
         other => {
@@ -286,6 +291,7 @@ fn determinism(args: &Args) -> i32 {
         "C09" | "srvfault" => determinism_with(&e2e::srvfault::SrvFaultSim, args),
         "realsock" => determinism_with(&e2e::realsock::RealSockSim, args),
         "realio" => determinism_with(&iosim::RealIoSim, args),
+        "realconnect" => determinism_with(&realconnect::RealConnectSim { property: "C10" }, args),
         "timersim" => determinism_with(&timersim::TimerSim, args),
         "grammar" => determinism_with(&e2e::grammar::GrammarSim, args),
         "C10" | "C11" | "eyesim" => determinism_with(&eyesim::EyeSim { property: "C10" }, args),
